@@ -125,10 +125,14 @@ func runReader(c *ctx) {
 			c.nonTriv = true
 			rc.Stats.Probe("read-after-limit")
 			var le *ioutil.LimitError
-			if len(calls) != 0 || got != 0 || !errors.As(err, &le) || le.Limit != n {
+			asked := 0
+			for _, uc := range calls {
+				asked += uc.Buf + uc.N
+			}
+			if asked != 0 || got != 0 || !errors.As(err, &le) || le.Limit != n {
 				rc.Fail("limit-reached", "LimitReader.Read", fmt.Sprintf(
-					"limit %d already delivered, but Read(buf %d) returned (%d, %v) and made %d calls to the wrapped reader; want (0, *LimitError{%d}) and none",
-					n, bufLen, got, err, len(calls), n))
+					"limit %d already delivered, but Read(buf %d) returned (%d, %v) and asked the wrapped reader for %d more bytes; want (0, *LimitError{%d}) and no further request",
+					n, bufLen, got, err, asked, n))
 
 				return
 			}
